@@ -695,7 +695,6 @@ func c20Payment(c *core.Ctx) {
 		fmt.Sprintf("the payment's tax summary is not the Merge fold over clones of each recalculated line document summary (merge=%v seed=%v clone=%v recalculated=%v)", okMerge, okSeed, okClone, okCalc))
 }
 
-
 // firstIterationSeed: the condition is `<range index> == 0` (or != / > 0) of the
 // loop that contains the accumulation, and the other branch of that if
 // statement seeds the accumulator with the very addend (`sum = x` on the first
